@@ -43,7 +43,9 @@ Authorized == o.attributed /\ AzResult \in {"Ok", "OkWithAudit"}
 Over == o.bodyLen > (IF o.exempt THEN LargeLimit ELSE LowLimit)
 LookupFails == o.fault /\ RulesApply
 \* the request must be relayed: attributed, authorized, well-formed, within the limit, policy available
-MustRelay == Authorized /\ ~o.trav /\ ~o.prov /\ ~LookupFails /\ ~Over
+\* (upstreamClosed: the host closed its side of this client connection's upstream after an earlier response; the
+\*  proxy then answers 502 -- it has no obligation to relay, but whatever it relays must still satisfy C01/C03/C05)
+MustRelay == Authorized /\ ~o.trav /\ ~o.prov /\ ~LookupFails /\ ~Over /\ ~o.upstreamClosed
 MayRelay == MustRelay
 ProxySigns == o.keyPresent /\ ~o.exempt
 
@@ -80,10 +82,10 @@ Reached == ~o.trav /\ ~o.prov /\ ~LookupFails /\ ~(Over /\ o.framing = "cl")   \
 P_C11_EnforceBlocks == (IsObs /\ ~Unspecified /\ Reached /\ RulesDeny /\ RulesMode = "enforce") =>
                           (o.status = 403 /\ ~o.relayed /\ o.strayBytes = 0)
 \* (hostFault # "none": the mock host dropped the connection after reading the request; the client then sees 502/503)
-P_C11_AuditForwards == (IsObs /\ ~Unspecified /\ Reached /\ RulesDeny /\ RulesMode = "audit" /\ ~Over /\ o.hostFault = "none") =>
+P_C11_AuditForwards == (IsObs /\ ~Unspecified /\ Reached /\ RulesDeny /\ RulesMode = "audit" /\ ~Over /\ o.hostFault = "none" /\ ~o.upstreamClosed) =>
                           (o.relayed /\ o.bodyIntact /\ o.status = o.hostStatus)
 P_C11_DisabledNotConsulted == (IsObs /\ RulesApply /\ RulesMode = "disabled" /\ Reached /\ ~Over /\ (o.dest = "imds" \/ o.elevated)) =>
-                          (o.relayed /\ o.failedDelta = 0)
+                          ((o.relayed \/ o.upstreamClosed) /\ o.failedDelta = 0)
 P_C11_DenialCountedOnce == (IsObs /\ ~Unspecified /\ Reached /\ RulesDeny) => (o.failedDelta = 1 /\ o.failedKeyOk)
 
 \* --- C15 ------------------------------------------------------------------------------------
